@@ -481,6 +481,7 @@ theorem idleEmpty_step : StepInv (LoopEnv (τ := τ)) (fun s => IdleEmpty s.worl
   afterFinal := fun s e rest hi _ => idleEmpty_send .final e.id .abort s.storeStamp s.world hi
   advance := fun s hi => hi
   halfAdvance := fun s hi => hi
+  clear := fun s hi => hi
 
 /-! ### what the recorder writes -/
 
@@ -583,5 +584,6 @@ theorem sweepYield_step : StepInv (LoopEnv (τ := τ))
       exact send_abort_yields _ _ x this
   advance := fun s hi => hi
   halfAdvance := fun s hi => hi
+  clear := fun s hi => hi
 
 end Ioflo.SkedLoop
